@@ -34,3 +34,4 @@ Definition sv_div (s : Q) (x : vec) : vec := map (fun a => s / a) x.
 Definition vneg (x : vec) : vec := map Qopp x.
 Definition vones (x : vec) : vec := map (fun _ => 1) x.
 Definition vsign (x : vec) : vec := map (fun a => if Qltb 0 a then 1 else if Qltb a 0 then -(1) else 0) x.
+Definition vwhere_eq0 (x : vec) (r : Q) : vec := map (fun a => if Qeq_bool a 0 then r else a) x.
